@@ -65,7 +65,8 @@ type c07Inv struct {
 
 type c07World struct {
 	// 0 mocknet, 1 tcp+noise+yamux, 2 the same through a circuit-v2 relay (limited connection),
-	// 3 mocknet with a BlankHost listener, 4 like 1 with a short negotiation timeout
+	// 3 mocknet with a BlankHost listener, 4 like 1 with a short negotiation timeout,
+	// 5 like 1 (real resource managers, limits) with a BlankHost listener
 	kind     int64
 	negto    time.Duration // the hosts' negotiation timeout when it is short enough to outwait
 	blankL   bool
@@ -184,7 +185,7 @@ func c07NewWorld(t *testing.T, kind int64, limD, limL []int64) *c07World {
 			}
 			return h
 		}
-		if kind == 1 || kind == 4 {
+		if kind == 1 || kind == 4 || kind == 5 {
 			if kind == 4 {
 				// hosts read the package default when they are built
 				old := bhost.DefaultNegotiationTimeout
@@ -193,7 +194,14 @@ func c07NewWorld(t *testing.T, kind int64, limD, limL []int64) *c07World {
 				defer func() { bhost.DefaultNegotiationTimeout = old }()
 			}
 			w.d, w.l = mk(w.rmD, true), mk(w.rmL, true)
-			w.closers = append(w.closers, func() { w.d.Close(); w.l.Close() })
+			lh := w.l
+			w.closers = append(w.closers, func() { w.d.Close(); lh.Close() })
+			if kind == 5 {
+				// the thinnest host on a network that carries the REAL resource
+				// manager (a second SetProtocol on a stream is refused there)
+				w.blankL = true
+				w.l = blankhost.NewBlankHost(lh.Network())
+			}
 		} else {
 			// the listener is reachable only through a circuit-v2 relay: the
 			// dialer's connection to it is a limited one
